@@ -605,6 +605,65 @@ pub(super) async fn write_all<C: Io>(
     Ok(())
 }
 
+#[cfg(feature = "verif")]
+mod verif_hooks {
+    use super::{ControlAction, Outbound, SendState};
+    use crate::mqtt_client::session::verif::{VerifControl, VerifEntry, VerifSend, VerifTx};
+
+    fn send(state: SendState) -> VerifSend {
+        match state {
+            SendState::Write { written } => VerifSend::Write(written),
+            SendState::Flush => VerifSend::Flush,
+            SendState::Sent => VerifSend::Sent,
+        }
+    }
+
+    impl Outbound<'_> {
+        pub(crate) fn verif_tx(&self) -> VerifTx {
+            let mut tx = VerifTx {
+                capacity: self.buf.len(),
+                used: self.used,
+                ..VerifTx::default()
+            };
+            for entry in &self.retained {
+                let _ = tx.retained.push(VerifEntry {
+                    packet_id: entry.packet_id,
+                    offset: entry.offset,
+                    len: entry.len,
+                    state: send(entry.state),
+                });
+            }
+            for entry in &self.pending_release {
+                let _ = tx.release.push(VerifEntry {
+                    packet_id: entry.packet_id,
+                    offset: 0,
+                    len: 0,
+                    state: send(entry.state),
+                });
+            }
+            for entry in &self.pending_control {
+                let (kind, packet_id, reason) = match entry.action {
+                    ControlAction::PubAck { packet_id, reason } => (4, packet_id, reason.into()),
+                    ControlAction::PubRec { packet_id, reason } => (5, packet_id, reason.into()),
+                    ControlAction::PubComp { packet_id, reason } => (7, packet_id, reason.into()),
+                    ControlAction::PingReq => (12, 0, 0),
+                };
+                let _ = tx.control.push(VerifControl {
+                    kind,
+                    packet_id,
+                    reason,
+                    state: send(entry.state),
+                });
+            }
+            tx
+        }
+
+        pub(crate) fn verif_bytes(&self, offset: usize, len: usize) -> &[u8] {
+            &self.buf[offset..offset + len]
+        }
+    }
+}
+
 #[cfg(test)]
 mod tests {
     use super::{ControlAction, MAX_FIXED_HEADER_SIZE, Outbound, OutboundStep, SendState};
